@@ -53,7 +53,8 @@ impl QBNumberCast<i64> for f32 {
     fn try_cast(&self) -> Result<i64, LintError> {
         if self.is_finite() {
             let r = self.round();
-            if r >= (MIN_LONG as Self) && r <= (MAX_LONG as Self) {
+            // compare as doubles: MAX_LONG is not representable as a single (it becomes 2147483648)
+            if (r as f64) >= (MIN_LONG as f64) && (r as f64) <= (MAX_LONG as f64) {
                 Ok(r as i64)
             } else {
                 Err(LintError::Overflow)
